@@ -1,7 +1,12 @@
 """Relational properties: C09 (low-priority intruder), C14 (week shifts), C15 (spellings),
 C16 (scenarios).  Every run is traced and validated against the scheduler spec (TraceSched);
 the relation between runs is decided by spec/Relate.tla."""
+import json
+import os
 import random
+import re
+import shutil
+import tempfile
 from datetime import datetime, timedelta
 
 from harness import e1, gen, relate
@@ -373,6 +378,93 @@ def make_scenarios(p, rng):
     return q
 
 
+ATTR_SCEN = ["plan", "s1", "s2", "s3"]
+ATTR_TASKS = ["c", "c.d", "c.d.x", "c.y"]
+
+
+def attr_text(decls, reverse):
+    """The project of one element of the Attr universe; `reverse` writes the lines of every task in the opposite order."""
+    lines = {n: [] for n in (1, 2, 3, 4)}
+    for n, w, v in sorted(decls):
+        lines[n].append("effort %dh" % v if w < 0 else "%s:effort %dh" % (ATTR_SCEN[w], v))
+    if reverse:
+        for n in lines:
+            lines[n].reverse()
+    L = ['project p "P" 2025-01-06 +2m {', '  timezone "UTC"', '  scenario plan "plan" {', '    scenario s1 "s1" {', '      scenario s2 "s2"', "    }",
+         '    scenario s3 "s3"', "  }", "}", 'resource r "r" {', "}", 'task c "c" {']
+    L += ["  " + x for x in lines[1]]
+    L += ['  task d "d" {'] + ["    " + x for x in lines[2]]
+    L += ['    task x "x" {', "      allocate r"] + ["      " + x for x in lines[3]] + ["    }", "  }"]
+    L += ['  task y "y" {', "    allocate r"] + ["    " + x for x in lines[4]] + ["  }", "}"]
+    return "\n".join(L) + "\n"
+
+
+def attr_universe(run, scr, tier):
+    """Attr.tla: every set of at most 2 (thorough: 3) effort lines over a task tree x scenario tree, resolved by the spec and by the real model builder."""
+    import subprocess
+    from concurrent.futures import ThreadPoolExecutor
+    from harness.tlc import run_tlc
+    from harness.build import env_for, PY
+    res = run_tlc("Attr", "AttrQuick.cfg" if tier == "quick" else "AttrFull.cfg", timeout=3000)
+    if res.error or res.invariant_violated:
+        raise MachineryError("Attr.tla violates its own invariant:\n" + res.out[-1500:])
+    run.add_tlc(res)
+    elems = []
+    for m in re.finditer(r'<<"ATTR", "((?:[^"\\]|\\.)*)">>', res.out):
+        elems.append(json.loads(m.group(1).encode().decode("unicode_escape")))
+    if not elems:
+        raise MachineryError("Attr.tla printed no universe")
+    jobs = []
+    for i, e in enumerate(elems):
+        for rev in (False, True):
+            if rev and len(e["decls"]) < 2:
+                continue
+            jobs.append({"id": "attr%05d%s" % (i, "r" if rev else ""), "text": attr_text(e["decls"], rev), "elem": i})
+    wd = tempfile.mkdtemp(prefix="spattr_")
+    try:
+        nproc = 14
+        chunks = [jobs[k::nproc] for k in range(nproc)]
+
+        def work(k):
+            if not chunks[k]:
+                return []
+            inp, outp = os.path.join(wd, "in%d" % k), os.path.join(wd, "out%d" % k)
+            with open(inp, "w") as f:
+                for j in chunks[k]:
+                    f.write(json.dumps({"id": j["id"], "text": j["text"]}) + "\n")
+            r = subprocess.run([PY, "-m", "harness.attrrun", inp, outp], env=env_for(scr, hooks=False), cwd=wd,
+                               stdout=subprocess.PIPE, stderr=subprocess.PIPE, text=True, timeout=3000)
+            if r.returncode != 0:
+                raise MachineryError("attrrun failed: " + r.stderr[-800:])
+            return [json.loads(x) for x in open(outp)]
+        with ThreadPoolExecutor(nproc) as ex:
+            outs = [o for lst in ex.map(work, range(nproc)) for o in lst]
+    finally:
+        shutil.rmtree(wd, ignore_errors=True)
+    by = {o["id"]: o for o in outs}
+    bad = 0
+    for j in jobs:
+        o = by.get(j["id"])
+        run.evaluated()
+        e = elems[j["elem"]]
+        if len(e["decls"]) >= 2:
+            run.nontrivial(phash(["attr", j["id"]]))
+        if o is None or "error" in o:
+            raise MachineryError("Attr universe: project not accepted: %s\n%s" % (j["text"], (o or {}).get("error")))
+        exp = {ATTR_TASKS[n]: [float(e["eff"][n][str(s)]) for s in range(4)] for n in range(4)}
+        got = {k: o["eff"].get(k) for k in ATTR_TASKS}
+        if o["scen"] != ATTR_SCEN:
+            raise MachineryError("Attr universe: scenario order %s" % o["scen"])
+        if exp != got:
+            bad += 1
+            if bad <= 12:
+                run.violation("C16-" + j["id"], {"id": "C16-" + j["id"], "text": j["text"], "attr_universe": True, "decls": e["decls"]},
+                              {"why": "the effort a task has in a scenario differs from the resolution rule of Attr.tla (own line of the scenario, else of the nearest "
+                                      "enclosing scenario, else the container's value in that scenario)", "lines": e["decls"], "expected_hours": exp, "got_hours": got})
+    run.cov["traces_validated_against_impl"] += len(jobs)
+    run.notes["attr_universe"] = {"elements": len(elems), "projects": len(jobs), "disagree": bad}
+
+
 def check_c16(prop, tier, replay=None):
     run = Run("C16", tier)
     run.cov["rule"] = ("generated projects (core, limits, sub-slot, backward mode incl. one scenario whose effort override needs a far longer horizon) with 1-4 scenarios (flat, nested, siblings) and scenario-specific effort / start overrides; "
@@ -442,6 +534,8 @@ def check_c16(prop, tier, replay=None):
         verdicts, res = relate.decide(obls)
         run.add_tlc(res)
         _report(run, obls, verdicts, payload, "a scenario is not scheduled like the single-scenario project with its effective attributes")
+        if not replay:
+            attr_universe(run, scr, tier)
         for o in obls[:3]:
             run.sample({"obligation": o["id"], "verdict": verdicts[o["id"]]})
     return run.finish()
